@@ -555,6 +555,11 @@ pub fn gen(tier: &str, rng: &mut Rng, emit: &mut Emit) {
         let c = rand_ctor(rng);
         let ops = (0..65_540).map(|_| smallest(2)).collect();
         emit.case(21, history(rng, c, ops));
+    } else if wants_long_runs(tier, emit) {
+        // the 32-bit source count carries into its third byte at 65 536 sources
+        let c = rand_ctor(rng);
+        let ops = (0..65_538).map(|_| smallest(2)).collect();
+        emit.case(21, history_at(c, ops, &[65_535, 65_536, 65_537]));
     }
     // random mixed histories
     let n = if tier == "thorough" { 3000 } else { 200 };
